@@ -205,6 +205,13 @@ impl Store {
             .load(std::sync::atomic::Ordering::Relaxed)
     }
 
+    /// Mark the store as poisoned: a modifying operation failed half-way.
+    pub fn poison(&self) {
+        self.shared
+            .poisoned
+            .store(true, std::sync::atomic::Ordering::Relaxed);
+    }
+
     pub fn sync_seqn(&self) -> u32 {
         self.sync.lock().sync_seqn
     }
